@@ -7,6 +7,7 @@ import (
 
 	"google.golang.org/protobuf/encoding/protojson"
 	"google.golang.org/protobuf/encoding/prototext"
+	"google.golang.org/protobuf/encoding/protowire"
 	"google.golang.org/protobuf/internal/editiondefaults"
 	"google.golang.org/protobuf/internal/filedesc"
 	"google.golang.org/protobuf/proto"
@@ -14,6 +15,7 @@ import (
 	"google.golang.org/protobuf/reflect/protoreflect"
 	"google.golang.org/protobuf/reflect/protoregistry"
 	"google.golang.org/protobuf/types/descriptorpb"
+	"google.golang.org/protobuf/types/dynamicpb"
 	"google.golang.org/protobuf/verifmc/core"
 	"google.golang.org/protobuf/verifmc/univ"
 )
@@ -99,7 +101,7 @@ func build(ed descriptorpb.Edition, f feature, lv [4]int32, idx int) *descriptor
 			fp.TypeName = proto.String(tn)
 		}
 		// the leaf-level setting goes on the field(s) the feature is about
-		relevant := map[string]string{"field_presence": "a", "repeated_field_encoding": "r", "utf8_validation": "s rs", "message_encoding": "m"}[f.name]
+		relevant := map[string]string{"field_presence": "a", "repeated_field_encoding": "r nr", "utf8_validation": "s rs ns", "message_encoding": "m nm"}[f.name]
 		if strings.Contains(" "+relevant+" ", " "+name+" ") {
 			if fs := fsWith(f, lv[3]); fs != nil {
 				fp.Options = &descriptorpb.FieldOptions{Features: fs}
@@ -129,6 +131,24 @@ func build(ed descriptorpb.Edition, f feature, lv [4]int32, idx int) *descriptor
 		outer.Options = &descriptorpb.MessageOptions{Features: fs}
 	}
 	leaf := &descriptorpb.DescriptorProto{Name: proto.String("Leaf"), Field: []*descriptorpb.FieldDescriptorProto{{Name: proto.String("x"), Number: proto.Int32(1), Type: descriptorpb.FieldDescriptorProto_TYPE_INT32.Enum(), Label: opt.Enum(), JsonName: proto.String("x")}}}
+	// extensions declared at file level (inherit from the file only) and nested in Inner (inherit
+	// from file, Outer, Inner; the leaf-level setting goes on the nested ones); extensions without
+	// any options message must still inherit
+	leaf.ExtensionRange = []*descriptorpb.DescriptorProto_ExtensionRange{{Start: proto.Int32(100), End: proto.Int32(200)}}
+	ext := func(fp *descriptorpb.FieldDescriptorProto) *descriptorpb.FieldDescriptorProto {
+		fp.Extendee = proto.String(q + ".Leaf")
+		return fp
+	}
+	fdp.Extension = []*descriptorpb.FieldDescriptorProto{
+		ext(fld("xr", 100, descriptorpb.FieldDescriptorProto_TYPE_INT32, rep, "")),
+		ext(fld("xs", 101, descriptorpb.FieldDescriptorProto_TYPE_STRING, opt, "")),
+		ext(fld("xm", 102, descriptorpb.FieldDescriptorProto_TYPE_MESSAGE, opt, q+".Leaf")),
+	}
+	inner.Extension = []*descriptorpb.FieldDescriptorProto{
+		ext(fld("nr", 110, descriptorpb.FieldDescriptorProto_TYPE_INT32, rep, "")),
+		ext(fld("ns", 111, descriptorpb.FieldDescriptorProto_TYPE_STRING, opt, "")),
+		ext(fld("nm", 112, descriptorpb.FieldDescriptorProto_TYPE_MESSAGE, opt, q+".Leaf")),
+	}
 	fdp.MessageType = []*descriptorpb.DescriptorProto{outer, leaf}
 	return fdp
 }
@@ -156,8 +176,41 @@ func observe(fd protoreflect.FileDescriptor) string {
 	fs := inner.Fields()
 	a, r, s, m := fs.ByName("a"), fs.ByName("r"), fs.ByName("s"), fs.ByName("m")
 	en := inner.Enums().ByName("En")
+	xs, ns := fd.Extensions(), inner.Extensions()
 	return fmt.Sprintf("a.presence=%v a.card=%v r.packed=%v s.utf8=%v rs.utf8=%v m.kind=%v m.presence=%v En.closed=%v",
-		a.HasPresence(), a.Cardinality(), r.IsPacked(), univ.EnforceUTF8(s), univ.EnforceUTF8(fs.ByName("rs")), m.Kind(), m.HasPresence(), en.IsClosed())
+		a.HasPresence(), a.Cardinality(), r.IsPacked(), enforces(s), enforces(fs.ByName("rs")), m.Kind(), m.HasPresence(), en.IsClosed()) +
+		fmt.Sprintf(" xr.packed=%v xs.utf8=%v xm.kind=%v nr.packed=%v ns.utf8=%v nm.kind=%v",
+			xs.ByName("xr").IsPacked(), enforces(xs.ByName("xs")), xs.ByName("xm").Kind(),
+			ns.ByName("nr").IsPacked(), enforces(ns.ByName("ns")), ns.ByName("nm").Kind())
+}
+
+// enforces observes UTF-8 enforcement behaviourally: Marshal of a dynamic message holding "\xff" in
+// the field (or extension) fails iff the runtime validates it; the pseudo-internal accessor must agree.
+func enforces(fd protoreflect.FieldDescriptor) string {
+	m := dynamicpb.NewMessage(fd.ContainingMessage())
+	tfd := fd
+	if fd.IsExtension() {
+		tfd = dynamicpb.NewExtensionType(fd).TypeDescriptor()
+	}
+	if fd.IsList() {
+		l := m.NewField(tfd).List()
+		l.Append(protoreflect.ValueOfString("\xff"))
+		m.Set(tfd, protoreflect.ValueOfList(l))
+	} else {
+		m.Set(tfd, protoreflect.ValueOfString("\xff"))
+	}
+	_, err := proto.MarshalOptions{AllowPartial: true}.Marshal(m)
+	_, terr := prototext.MarshalOptions{AllowPartial: true}.Marshal(m)
+	in := protowire.AppendString(protowire.AppendTag(nil, fd.Number(), protowire.BytesType), "\xff")
+	ts := &protoregistry.Types{}
+	if fd.IsExtension() {
+		ts.RegisterExtension(dynamicpb.NewExtensionType(fd))
+	}
+	uerr := proto.UnmarshalOptions{AllowPartial: true, Resolver: ts}.Unmarshal(in, dynamicpb.NewMessage(fd.ContainingMessage()))
+	if acc := univ.ImplEnforceUTF8(fd); acc != (err != nil) || acc != (uerr != nil) || acc != (terr != nil) {
+		return fmt.Sprintf("accessor=%v/marshal-rejects=%v/unmarshal-rejects=%v/text-rejects=%v", acc, err != nil, uerr != nil, terr != nil)
+	}
+	return fmt.Sprint(err != nil)
 }
 
 func expect(def *descriptorpb.FeatureSet, f feature, lv [4]int32) string {
@@ -179,9 +232,23 @@ func expect(def *descriptorpb.FeatureSet, f feature, lv [4]int32) string {
 	if res.GetMessageEncoding() == descriptorpb.FeatureSet_DELIMITED {
 		kind = "group"
 	}
+	// file-level extensions see the edition default overridden by the file-level setting only
+	top := proto.Clone(def).(*descriptorpb.FeatureSet)
+	if lv[0] != 0 {
+		f.set(top, lv[0])
+	}
+	kindOf := func(fs *descriptorpb.FeatureSet) string {
+		if fs.GetMessageEncoding() == descriptorpb.FeatureSet_DELIMITED {
+			return "group"
+		}
+		return "message"
+	}
 	return fmt.Sprintf("a.presence=%v a.card=%v r.packed=%v s.utf8=%v rs.utf8=%v m.kind=%v m.presence=%v En.closed=%v",
 		presence != descriptorpb.FeatureSet_IMPLICIT, card, res.GetRepeatedFieldEncoding() == descriptorpb.FeatureSet_PACKED,
-		res.GetUtf8Validation() == descriptorpb.FeatureSet_VERIFY, res.GetUtf8Validation() == descriptorpb.FeatureSet_VERIFY, kind, true, res.GetEnumType() == descriptorpb.FeatureSet_CLOSED)
+		res.GetUtf8Validation() == descriptorpb.FeatureSet_VERIFY, res.GetUtf8Validation() == descriptorpb.FeatureSet_VERIFY, kind, true, res.GetEnumType() == descriptorpb.FeatureSet_CLOSED) +
+		fmt.Sprintf(" xr.packed=%v xs.utf8=%v xm.kind=%v nr.packed=%v ns.utf8=%v nm.kind=%v",
+			top.GetRepeatedFieldEncoding() == descriptorpb.FeatureSet_PACKED, top.GetUtf8Validation() == descriptorpb.FeatureSet_VERIFY, kindOf(top),
+			res.GetRepeatedFieldEncoding() == descriptorpb.FeatureSet_PACKED, res.GetUtf8Validation() == descriptorpb.FeatureSet_VERIFY, kindOf(res))
 }
 
 func run(c *core.Ctx) {
